@@ -29,7 +29,7 @@ import inspect
 import itertools
 import pathlib
 import re
-from collections import defaultdict
+from collections import ChainMap, defaultdict
 from collections.abc import Callable, Generator, Iterable, Iterator
 from decimal import Decimal
 from fractions import Fraction
@@ -683,7 +683,13 @@ class GenericPlainRegistry(Generic[QuantityT, UnitT], metaclass=RegistryMeta):
             name = prefix + unit_name
             symbol = self.get_symbol(name, case_sensitive)
             prefix_def = self._prefixes[prefix]
-            self._units[name] = UnitDefinition(
+            # A prefixed unit does not depend on the active contexts: register it
+            # in the registry proper and not in the layer of a context that
+            # redefines units, which goes away when the context is left.
+            units = self._units
+            if isinstance(units, ChainMap) and unit_name in units.maps[-1]:
+                units = units.maps[-1]
+            units[name] = UnitDefinition(
                 name,
                 symbol,
                 tuple(),
